@@ -191,7 +191,7 @@ def check_sub(cell, case, ctx):
                      f"{len(ref_cart)}", op=op.name, variant=variant, backend=backend)
             return
         n = op.changed if op.changed is not None else len(ref_cart)
-        if not opcheck.vec_close(k1[3], ref_cart, tol, scale, n):
+        if not opcheck.vec_equiv(k1[1], k1[2], ref_cart, tol, scale, n):
             ctx.fail("value" + q, f"{op.name} {variant}: result {opcheck.fmt(k1[3])} (stored {k1[1]} {opcheck.fmt(k1[2])}) "
                      f"!= all-Cartesian result {opcheck.fmt(ref_cart)}; operands a={opcheck.fmt(a)} b={opcheck.fmt(b) if b else None} "
                      f"scalars={s_in}", op=op.name, variant=variant, backend=backend)
